@@ -20,7 +20,9 @@ RULE = ("case = product graph (3-7 names x 1-3 versions, DAG by name order, requ
         "and the printed command text), the others call eups.app.setup; the command list is compared string by string; "
         "setup --type build with if (type == build) blocks; input classes with floors: all versions of a product sharing ONE "
         "table file (${PRODUCT_VERSION}) and switched, own directory spelled ${<NAME>_DIR} in the middle of a value, a "
-        "set-up bystander named <requested product>_<suffix>; "
+        "set-up bystander named <requested product>_<suffix>, a version named like a recognised tag set up and replaced, "
+        "products / variables named eups_… / EUPS_…; sessions: ONE Eups object serving 2-4 top-level Eups.setup calls (16 per "
+        "batch, half aimed at a dependency asked for differently by two calls); "
         "a case is non-trivial when some "
         "request changes the environment; distinct = distinct (graph, prior, history) digests")
 TRUSTED = ["harness/lib_setup.py: generator, canonicaliser (element lists split at the variable's delimiter, $S for the "
@@ -44,7 +46,8 @@ MIRRORS = L.mirrors(PID)
 def run(ctx):
     stats = {}
     corpus = L.load_corpus(PID)
-    L.evaluate(ctx, PID, corpus, stats)
+    L.evaluate(ctx, PID, [c for c in corpus if not c.get("session")], stats)
+    L.evaluate_sessions(ctx, PID, [c for c in corpus if c.get("session")], stats)
     target = ctx.n(4500, 60000)
     done = 0
     import time
@@ -53,6 +56,8 @@ def run(ctx):
         batch = [L.gen_case(ctx.rng) for _ in range(96)]
         L.evaluate(ctx, PID, batch, stats)
         done += sum(len(c["history"]) for c in batch)
+        # one Eups object serving several top-level calls (API use)
+        L.evaluate_sessions(ctx, PID, [L.gen_session_case(ctx.rng) for _ in range(16)], stats)
     if ctx.tier == "thorough":
         # exhaustive: all 4096 graphs over 3 names x 2 versions of lib_setup.small_graphs
         batch = []
@@ -71,7 +76,8 @@ def run(ctx):
     ok = stats.get("ok", 0)
     if done >= 300 and (ok < done * 0.3 or stats.get("switched", 0) < ok * 0.05 or stats.get("c01_prior_ok", 0) < ok * 0.5):
         raise common.InfraError("degenerate distribution: %r of %d requests" % (stats, done))
-    floors = {"class_shared_table_switch": 5, "class_prefix_bystander": 5, "class_mid_reference": 10}
+    floors = {"class_shared_table_switch": 5, "class_prefix_bystander": 5, "class_mid_reference": 10, "class_tag_named": 5,
+              "class_session_switch": 5}
     low = {k: stats.get(k, 0) for k, f in floors.items() if stats.get(k, 0) < f}
     if done >= 600 and low:
         raise common.InfraError("input classes of round 3 under their floors %r: %r of %d requests" % (floors, low, done))
